@@ -181,6 +181,7 @@ func checkC01(c *Ctx) {
 	checkC01AssignPaths(c)
 	checkC01ReceiverReassigned(c)
 	checkC01LexTerminates(c)
+	checkC01Edges(c)
 
 	c.Set("exhaustive", true)
 	c.Set("bounds", map[string]any{"MaxDepth": maxDepth})
